@@ -8,14 +8,22 @@ TARGETS = ["Base/Num.vo", "C14/ER.vo", "C14/Model.vo", "C14/Spec.vo", "C14/Proof
            "C14/ProofsCont.vo", "C14/ProofsDisc.vo", "C14/ProofsNorm.vo", "C14/ProofsCdf.vo", "C14/ProofsCdf2.vo", "C14/ProofsNorm2.vo",
            "C14/ProofsRegress.vo", "C14/VModel.vo", "C14/ProofsVec.vo",
            "C14/MixModel.vo", "C14/ProofsMix.vo", "C14/SkewModel.vo", "C14/ProofsSkew.vo", "C14/IWModel.vo", "C14/ProofsIW.vo",
-           "C14/Corr2.vo", "C14/ProofsCdf3.vo", "C14/MixParam.vo", "C14/ProofsMixParam.vo", "C14/ProofsMixParam2.vo", "C14/CorrP.vo", "C14/Props.vo"]
+           "C14/Corr2.vo", "C14/ProofsCdf3.vo", "C14/MixParam.vo", "C14/ProofsMixParam.vo", "C14/ProofsMixParam2.vo", "C14/CorrP.vo",
+           "C14/CorrS.vo", "C14/ProofsPdf.vo", "C14/ProofsNorm3.vo", "C14/Props.vo"]
 PROPS = ["C14/Props.v"]
 PARTIAL = ("Theorems are over exact real arithmetic extended by +Inf/-Inf/NaN (coq/C14/ER.v); rounding, overflow and "
            "signed zeros of binary64 are not modelled; the step to binary64 is bounded per sampled case by the "
            "Coq-Interval certificate (tolerance 2^-32 relative). log-gamma, log-erfc and the regularised incomplete gamma "
            "function are Section variables (their values are logged from the Go run in the correspondence: C13's "
-           "business); normalisation is proved for the exponential, Pareto, power-law and geometric families (Laplace: "
-           "limits of the cdf), not for the Gamma/Beta-normalised ones. Vector families (t, normal, ScalarIid, ScalarId) "
+           "business); normalisation is proved for the exponential, Pareto, power-law, geometric, Cauchy and generalised Pareto families "
+           "(xi >= 0: improper integral; xi < 0: limit 1 at the upper end point) and Laplace (limits of the cdf); GEV: the cdf has the "
+           "density as derivative, is strictly increasing and the density integrates to cdf differences on the support for every xi, the "
+           "limits 0 / 1 at the ends only for xi = 0 (gumbel_limits_partial); not for the Gamma/Beta-normalised families and not for the "
+           "binomial / Poisson / negative-binomial sums. Pdf methods: modelled as exp of LogPdf for every family (the shape of every "
+           "Pdf / Cdf method is re-read from the source each run and compared in Coq with the table the dispatcher is proved to obey); "
+           "overflow / underflow of exp in binary64 is outside the exact-real model (points where LogPdf overflows are not sampled); "
+           "the Pdf of LogisticRegression and the HMM / mixture types have no Pdf or are not modelled; gamma Mean, normal "
+           "MagicLogCdf, vector normal Mean / Variance / EllipticCdf and the NIW marginals are not modelled. Vector families (t, normal, ScalarIid, ScalarId) "
            "are modelled with the inverse and determinant of Sigma entering as logged data (SigmaInv / SigmaDet fields; "
            "matrixInverse / determinant are other properties' business); the same holds for the skew normal (kappa = "
            "diag(s) omega diag(s): Normal1.SigmaInv / SigmaDet; Phi through the Section hypotheses lerfc = ln erfc, erfc > 0), "
@@ -72,6 +80,12 @@ def eval_cert_shards(paths, timeout=900, jobs=vlib.NCPU):
     def one(p):
         t0 = time.time()
         rc, out = vlib.coqc_file(p, timeout=timeout)
+        for k in range(4):
+            if rc >= 0:
+                break
+            # killed by a signal (the kernel's OOM killer when the machine is overloaded): not a verdict; wait, try again
+            time.sleep(15 * (k + 1))
+            rc, out = vlib.coqc_file(p, timeout=timeout)
         r = {"path": p, "secs": round(time.time() - t0, 2), "ok": False, "mism": None, "error": None}
         if rc == 0:
             r["mism"] = [int(x) for x in re.findall(r"MISMATCH (\d+)%nat", out)]
@@ -165,13 +179,41 @@ def inventory(ctx, binary):
             for n in sorted(set(ma) | set(mb)):
                 if ma.get(n) != mb.get(n):
                     diffs.append("%s.%s.%s writes %s, modelled as %s" % (k[0], k[1], n, mb.get(n), ma.get(n)))
+    # round 6: the shape of every Pdf / Cdf method, re-generated from the source as a Coq definition and compared
+    # inside Coq with the table the model is proved about (coq/C14/CorrS.v model_shapes; ProofsPdf.exp_wrappers_sound)
+    gs = os.path.join(ctx.dir, "gen_shapes.v")
+    shape_ok = False
+    if os.path.exists(gs):
+        r = eval_cert_shards([gs], timeout=300, jobs=1)[0]
+        shape_ok = r["ok"]
+        if not shape_ok:
+            model = set(re.findall(r'\("(\w+)", "(\w+)", "(\w+)", (SOther|SExpOf "\w+")\)',
+                                   open(os.path.join(vlib.COQ, "C14/CorrS.v")).read()))
+            try:
+                gen = {(g["Pkg"], g["Type"], g["Method"], g["Shape"]) for g in json.load(open(os.path.join(ctx.dir, "gen_shapes.json")))}
+            except Exception:
+                gen = set()
+            for e in sorted(gen - model):
+                diffs.append("%s.%s.%s has the shape %s in the source, which is not what the model is proved about" % e)
+            for e in sorted(model - gen):
+                diffs.append("%s.%s.%s: the model is proved about the shape %s, the source no longer has it" % e)
+            if r["error"]:
+                diffs.append("gen_shapes.v did not compile: " + r["error"][-300:])
+            if not (gen ^ model) and not r["error"]:
+                diffs.append("gen_shapes <> model_shapes (order / duplicates)")
+    else:
+        diffs.append("the inventory wrote no gen_shapes.v")
+    ctx.oblige(1, 1 if shape_ok else 0)
+    ctx.cov["pdf_cdf_method_shapes"] = {"regenerated_table_equals_model_table": shape_ok,
+                                        "note": "go/ast: every Pdf / Cdf method of the three packages is classified as exp-wrapper of M or a body of "
+                                                "its own; Coq checks gen_shapes = CorrS.model_shapes"}
     nm = sum(len(t["methods"]) for t in now.values())
     modelled = sum(len(now[(p, t)]["methods"]) for p, ts in STATE_MODELLED.items() for t in ts if (p, t) in now)
     ctx.cov["mutator_inventory"] = {"types": len(now), "receiver_writing_methods": nm, "state_modelled_methods": modelled,
                                     "differences": diffs}
-    ctx.oblige(1, 0 if diffs else 1)
-    ctx.log("mutator inventory: %d types, %d receiver-writing methods (%d are transitions of the state model), %d differences" % (
-        len(now), nm, modelled, len(diffs)))
+    ctx.oblige(1, 0 if [d for d in diffs if "shape" not in d] else 1)
+    ctx.log("mutator inventory: %d types, %d receiver-writing methods (%d are transitions of the state model), Pdf/Cdf method shapes %s, %d differences" % (
+        len(now), nm, modelled, "as modelled" if shape_ok else "DIFFER", len(diffs)))
     return diffs
 
 
@@ -234,7 +276,7 @@ def run(ctx):
         if key in reported:
             continue
         reported.add(key)
-        case = {"fam": f["fam"], "fn": f["fn"] if f["fn"] in ("LogPdf", "LogCdf", "Cdf", "Posterior", "Likelihood", "LogWeights") else "LogPdf",
+        case = {"fam": f["fam"], "fn": f["fn"] if f["fn"] in ("LogPdf", "LogCdf", "Cdf", "Pdf", "Posterior", "Likelihood", "LogWeights") else "LogPdf",
                 "p": f["p"], "x": f["x"], "v": f.get("v")}
         if f.get("w") is not None:
             case["w"] = f["w"]
@@ -247,7 +289,7 @@ def run(ctx):
                           f.get("v") or f.get("w") or f["p"], f["observed"], f["expected"]))
     if inv_diffs and not unknown:
         ctx.violation({"obligation": "C14 mutator inventory (corpus/C14/mutators.json)", "differences": inv_diffs[:20]}, False,
-                      "tie lost: the exported mutators of the distribution types differ from the ones the state model covers: "
+                      "tie lost: the exported mutators / Pdf-Cdf method shapes of the distribution types differ from the ones the model covers: "
                       + "; ".join(inv_diffs[:3]))
     if not unknown:
         for f in failures:
